@@ -565,6 +565,51 @@ fn uniform_elem(rng: &mut impl Rng) -> BigUint {
   }
 }
 
+/// the field's elements are told apart as integers, also by the code that interpolates over them:
+/// two points of one line at x1 != x2 from the boundary lattice (incl. pairs congruent modulo 2^64 or
+/// 2^128) recover the line's constant term, per big-integer Lagrange interpolation
+fn interpolate_over_lattice(rec: &mut Rec, lat: &[BigUint], row: usize, rng: &mut impl Rng) {
+  use std::convert::TryFrom;
+  let x1 = &lat[row];
+  if x1.is_zero() {
+    return;
+  }
+  let s = uniform_elem(rng);
+  let a = uniform_elem(rng);
+  let line = |x: &BigUint| -> BigUint { bf::add(&s, &bf::mul(&a, x)) };
+  for x2 in lat.iter() {
+    if x2.is_zero() || x2 == x1 {
+      continue;
+    }
+    let pp = bf::p();
+    if x1 >= &pp || x2 >= &pp {
+      continue;
+    }
+    rec.ev("interpolate_lattice_pairs");
+    let mut shares = Vec::new();
+    for x in [x1, x2] {
+      let mut enc = bf::to_le24(x).to_vec();
+      enc.extend_from_slice(&bf::to_le24(&line(x)));
+      if let Ok(sh) = star_sharks::Share::try_from(&enc[..]) {
+        shares.push(sh);
+      }
+    }
+    if shares.len() != 2 {
+      continue;
+    }
+    let want = bf::to_le24(&s).to_vec();
+    let got = star_sharks::Sharks(2).recover(&shares);
+    if got.as_ref().ok() != Some(&want) {
+      rec.violation(
+        "arith:interpolation-over-boundary-points",
+        format!("two points of a line at x1 = {} and x2 = {} (distinct field elements) interpolate to {:?}, big-integer Lagrange gives {}", x1, x2, got.map(|b| hex(&b)), s),
+        json!({"kind": "interpolate", "x1": x1.to_string(), "x2": x2.to_string(), "constant_term": s.to_string(), "slope": a.to_string()}),
+      );
+      return;
+    }
+  }
+}
+
 pub fn run(ctx: &Ctx) -> Rec {
   let lat = lattice();
   let p = bf::p();
@@ -600,6 +645,7 @@ pub fn run(ctx: &Ctx) -> Rec {
     }
   });
   total.merge(r);
+  total.merge(par_run(ctx, "interpolate-lattice", nl, |rec, i, rng| interpolate_over_lattice(rec, &lat, i as usize, rng)));
   total.note("lattice_size", json!(lat.len()));
   total.note("lattice_pairs_exhaustive", json!(lat.len() * lat.len()));
 
